@@ -65,6 +65,10 @@ var domains = []string{
 	"123456789.x123456789.x123456789.x123456789.x123456789.x123456789.x123456789.x123456789.x123456789.x123456789.x123456789.x123456789.x123456789.x123456789.x123456789.x123456789.x123456789.ab.example.com",
 }
 
+// tunnel domains whose text can occur again inside an encoded payload: a single label, one or two characters,
+// periodic ones; all made of characters the codecs' alphabets contain (family "domrep")
+var shortDomains = []string{"a", "q", "t", "7", "aa", "ab3", "t.t", "a.a", "tunnel", "intranet", "A", "Tunnel"}
+
 // question names: a short one, one that looks like a real data query, and the longest legal one
 var qstyles = []string{"short", "mid", "long"}
 
@@ -225,12 +229,72 @@ func payload(gen string, n int, key uint64) []byte {
 	return b
 }
 
+// payloadOf is the payload of a case. The generator "domtail" steers a seeded random payload so that the text the
+// server puts into the answer records ends in the first label of the tunnel domain (the payload looks like the
+// domain it travels under: "....tunnel.tunnel."). It only uses the real Response.Encode and the codec; when the
+// length or the codec does not allow such an ending, the payload stays the random one.
+func payloadOf(d caseDesc) []byte {
+	if d.Gen != "domtail" {
+		return payload(d.Gen, d.Len, d.Key)
+	}
+	base := payload("random", d.Len, d.Key)
+	codec, err := enc.FromCode(d.Codec[0])
+	if err != nil {
+		return base
+	}
+	if k := kindByName(d.Resp); k == nil || !k.usesCodec {
+		codec = enc.Base32Encoding
+	}
+	tail := d.Domain
+	if i := strings.IndexByte(tail, '.'); i >= 0 {
+		tail = tail[:i]
+	}
+	var out []byte
+	vcommon.Guard(func() {
+		text, err := buildWith(d, base).Encode(codec)
+		if err != nil || len(text) < len(tail)+3 {
+			return
+		}
+		goal := append(append([]byte{}, text[:len(text)-len(tail)]...), tail...)
+		for off := 1; off <= 2 && out == nil; off++ { // the response's own prefix in front of the codec's text
+			was, e1 := codec.Decode(append([]byte{}, text[off:]...))
+			now, e2 := codec.Decode(append([]byte{}, goal[off:]...))
+			if e1 != nil || e2 != nil || len(was) != len(now) {
+				continue
+			}
+			k := 0 // bytes at the end that have to change
+			for i := range was {
+				if was[i] != now[i] {
+					k = len(was) - i
+					break
+				}
+			}
+			if k > len(base) {
+				continue
+			}
+			cand := append([]byte{}, base...)
+			copy(cand[len(cand)-k:], now[len(now)-k:])
+			if t2, err := buildWith(d, cand).Encode(codec); err == nil && bytes.HasSuffix(t2, []byte(tail)) {
+				out = cand
+			}
+		}
+	})
+	if out == nil {
+		return base
+	}
+	return out
+}
+
 func build(d caseDesc) commands.Response {
-	e := errorByText(d.Err)
 	var data []byte
 	if k := kindByName(d.Resp); k != nil && k.payload {
-		data = payload(d.Gen, d.Len, d.Key)
+		data = payloadOf(d)
 	}
+	return buildWith(d, data)
+}
+
+func buildWith(d caseDesc, data []byte) commands.Response {
+	e := errorByText(d.Err)
 	switch d.Resp {
 	case "Version", "Version+err":
 		return &commands.VersionResponse{ServerVersion: d.Ver, UserId: d.User, Err: e}
@@ -600,7 +664,7 @@ func (h *harness) run(d caseDesc) (outcome string) {
 	cell := d.Qtype + ":" + effCodec + ":" + k.family
 	mkdesc := func() caseDesc {
 		if k.payload {
-			p := payload(d.Gen, d.Len, d.Key)
+			p := payloadOf(d)
 			if len(p) > 64 {
 				p = p[:64]
 			}
@@ -623,6 +687,26 @@ func (h *harness) run(d caseDesc) (outcome string) {
 	}
 
 	rec.Seen("qtype x codec x response", d.Qtype+"/"+codec.Name()+"/"+d.Resp)
+	if msg != nil {
+		needle := "." + d.Domain + "."
+		for _, rr := range msg.Answer {
+			name := ""
+			switch v := rr.(type) {
+			case *dns.MX:
+				name = v.Mx
+			case *dns.SRV:
+				name = v.Target
+			case *dns.CNAME:
+				name = v.Target
+			}
+			if name != "" && strings.Index(name, needle) != strings.LastIndex(name, needle) {
+				rec.Stat("answers_with_the_domain_text_among_the_payload_labels", 1)
+				rec.Stat("answers_with_the_domain_text_among_the_payload_labels:"+d.Qtype, 1)
+				rec.Seen("domains_seen_among_payload_labels", d.Domain)
+				break
+			}
+		}
+	}
 	if d.Query != "" {
 		rec.Seen("client-formed query: qtype x edns0 x outcome stage", fmt.Sprintf("%s/%v/%s", d.Qtype, d.Edns0, stage))
 	}
@@ -876,6 +960,11 @@ func TestVerifC10(t *testing.T) {
 	for g := 0; g < rec.Pick(8, 16); g++ {
 		items = append(items, item{qtypes[0], codecCodes[0], "group"})
 	}
+	for _, q := range qtypes {
+		for _, c := range codecCodes {
+			items = append(items, item{q, c, "domrep"})
+		}
+	}
 	thorough := rec.Thorough()
 	sampled := false
 	for idx, it := range items {
@@ -1085,6 +1174,67 @@ func TestVerifC10(t *testing.T) {
 						case "Error", "Packet+err":
 							d.Err = errTexts[rng.Intn(len(errTexts))]
 						}
+						h.run(d)
+					}
+				}
+			}
+		case "domrep":
+			// --- tunnel domains that can occur again inside the encoded payload (single label, one or two characters,
+			// periodic): every length whose answer has one to several records, seeded random payloads (a one-character
+			// domain is met by chance) and payloads steered to end in the domain's first label ("domtail")
+			hostName := it.q.name == "MX" || it.q.name == "SRV" || it.q.name == "CNAME"
+			maxLen := rec.Pick(160, 420)
+			if !hostName {
+				maxLen = rec.Pick(40, 80) // the domain is not part of these records; keep a sample
+			}
+			for l := 0; l <= maxLen; l++ {
+				for di, dom := range shortDomains {
+					gens := []string{"random", "domtail"}
+					if len(dom) == 1 && hostName {
+						gens = append(gens, "random", "random", "random")
+					}
+					for gi, g := range gens {
+						d := base
+						d.Domain, d.QStyle = dom, qstyles[(l+di+gi)%len(qstyles)]
+						d.Resp, d.Gen, d.Len, d.Key = "Packet/data", g, l, rng.Uint64()
+						d.Ack, d.Seq = randSeq(), randSeq()
+						if (l+di)%4 == 0 && gi < 2 && l <= 250 {
+							// the upstream-codec echo (always Base32)
+							d.Resp, d.Ack, d.Seq = "UpEnc", 0, 0
+						}
+						if (l+di)%7 == 3 {
+							d.Query, d.Edns0, d.UpLen, d.QStyle = "client", l%2 == 0, rng.Intn(150), ""
+						}
+						h.run(d)
+					}
+					if l%3 == 0 {
+						d := base
+						d.Domain, d.QStyle = dom, qstyles[(l+di)%len(qstyles)]
+						d.Resp, d.Gen, d.Len = "FragSize", "frag107", l
+						h.run(d)
+					}
+				}
+			}
+			// responses without a payload, every error, and the codec probe under these domains
+			for _, dom := range shortDomains {
+				for qi, qs := range qstyles {
+					for _, kn := range []string{"Version", "SetOptions", "Packet/none", "DownEnc"} {
+						d := base
+						d.Domain, d.QStyle, d.Resp = dom, qs, kn
+						switch kn {
+						case "Version":
+							d.Ver, d.User = rng.Uint32(), uint16(rng.Intn(1296))
+						case "Packet/none":
+							d.Ack = randSeq()
+						case "DownEnc":
+							d.Gen, d.Len = "codeccheck", len(util.DownloadCodecCheck)
+						}
+						h.run(d)
+					}
+					for ei, et := range errTexts {
+						d := base
+						d.Domain, d.QStyle, d.Err = dom, qs, et
+						d.Resp = []string{"Error", "Packet+err", "Version+err", "SetOptions+err", "DownEnc+err", "FragSize+err", "UpEnc+err"}[(ei+qi)%7]
 						h.run(d)
 					}
 				}
